@@ -4,4 +4,4 @@ Extraction Language OCaml.
 Extraction "model.ml" mkNumOps nhalf value_to_bin bin_to_value index_ok
   mkVar mkBound mkCfg mkHill mkIn mkState init_state step step_state save_state read_state rebin_state restart_state reload_state apply_event final_state
   calc_energy calc_forces grid_energy_at grid_gradient_at gsizes kval henergy near_edge cbins gbins centre
-  hw_bins min_buffer tbins eb_scale all_ix grid_max pmf_shift pmf_value mkPar with_par next_cfg.
+  hw_bins min_buffer tbins eb_scale all_ix grid_max pmf_shift pmf_value mkPar with_par next_cfg add_hill mirror_apply total_energy total_force.
